@@ -83,6 +83,15 @@ Example C15_port_15 :
   outcome [104; 47; 49; 53; 47; 49] false false = inr ([104], None, [2; 15; 15; 0; 1]).
 Proof. vm_compute. reflexivity. Qed.
 
+(* "for every call, whatever happened before": [outcome] is a Gallina function of the path string
+   and the two flags only, so the model has no history to quantify over and the clause needs no
+   theorem; it is a fact about the CODE (no memoisation, no shared mutable route list), tied by the
+   harness's history probes (re-parse after the earlier result was mutated in place; a second driver
+   after the first stripped its stored route as LogixDriver._initialize_driver does for a Micro800) *)
+Remark C15_no_history : forall s s' auto auto' pl pl',
+  s = s' -> auto = auto' -> pl = pl' -> outcome s auto pl = outcome s' auto' pl'.
+Proof. intros; subst; reflexivity. Qed.
+
 (* the drivers store what the parse returned *)
 Theorem C15_driver_init : forall d a sp hs,
   wf_route a = true -> wf_spelling sp a = true -> hops_of (auto_slot_of d) (r_shape a) = Some hs ->
